@@ -64,6 +64,7 @@ func allCases(d *Driver, path string, seed int64, tier string) ([]json.RawMessag
 
 const (
 	exitHang  = 3
+	exitRace  = 66
 	exitInfra = 64 // the Go runtime itself exits with 2 on a fatal error (stack overflow), which is an observation
 )
 
@@ -167,10 +168,14 @@ func runParent(d *Driver, prop, casesPath, outPath string, seed int64, tier stri
 		}
 		if code != exitHang {
 			// unrecoverable death inside case k: that is an observation of case k
+			kind := "crash"
+			if code == exitRace {
+				kind = "race" // the race detector (GORACE=halt_on_error=1 exitcode=66) ended the process
+			}
 			out, _ := os.OpenFile(outPath, os.O_APPEND|os.O_CREATE|os.O_WRONLY, 0o644)
 			w := bufio.NewWriter(out)
 			c := &Case{Idx: k, Raw: cs[k], Seed: seed, Tier: tier}
-			for _, l := range d.Abnormal(c, "crash") {
+			for _, l := range d.Abnormal(c, kind) {
 				writeLine(w, l)
 			}
 			w.Flush()
